@@ -56,10 +56,7 @@ struct SyncApp {
 }
 
 fn start(pool: usize, bind: &str) -> Result<SyncApp, String> {
-    let port = {
-        let l = TcpListener::bind(format!("{}:0", bind)).map_err(|e| e.to_string())?;
-        l.local_addr().unwrap().port()
-    };
+    let port = hvcommon::net::free_port(bind);
     let addr: SocketAddr = format!("{}:{}", bind, port).parse().unwrap();
     let (tx, rx) = channel();
     let (dtx, drx) = channel();
